@@ -9,6 +9,8 @@
 (*        the producer is told DeliveryConfirmed at most once per message and only    *)
 (*        after the consumer confirmed it; at the end of a drained flow every         *)
 (*        produced message was confirmed.                                             *)
+(*        Neither controller may fail the flow terminally (ReliableDeliveryFailed) under  *)
+(*        message faults: that strands every later message.                              *)
 (*   C43  every SequencedMessage emitted has seq <= the highest sequence requested by *)
 (*        the consumer controller so far; the receive buffer never exceeds the window *)
 (*        and never has to drop an arrival for lack of room.                          *)
@@ -52,6 +54,10 @@ Step ==
             /\ UNCHANGED <<conf, req>>
        [] e.e = "end" /\ e.who = "cc" ->
             /\ Check(Len(e.st.buf) <= W, "C43", "buffer-exceeds-window", W, Len(e.st.buf))
+            /\ Check(~e.st.failed, "C42", "consumer-controller-failed-the-flow", 0, 0)
+            /\ UNCHANGED <<conf, req, dconf>>
+       [] e.e = "end" /\ e.who = "pc" ->
+            /\ Check(~e.st.failed, "C42", "producer-controller-failed-the-flow", 0, 0)
             /\ UNCHANGED <<conf, req, dconf>>
        [] e.e = "fin" ->
             /\ Check(e.done \/ e.free, "C42", "not-every-produced-message-confirmed", e.produced, conf)
